@@ -29,6 +29,23 @@ CHECKS = {
             "offset is carried separately from Lambda by every view; dynamic sizes multiples of inner tiles; "
             "tile-aligned subview offsets; mathematical-int index arithmetic (no overflow) for emitted IR.",
             "symbolic execution of the real Python + symbolic IR interpreter + z3 unsat queries", "3/C10"),
+    "C03": (OT,
+            "The real SchedulePattern/Schedule transformations and the real scheduler_backtrack run with symbolic, "
+            "unbounded iteration bounds; for every result on every path z3 proves it is a bijective re-indexing of "
+            "the original box (ownership/weights read off the concrete matrices of all operands; range, injectivity "
+            "and cardinality are unsat queries under the path condition). The dart-scheduler pass is covered on "
+            "concrete shapes with the same oracle. Counterexamples are replayed by enumerating both boxes.",
+            "access matrices, tile sizes and templates are concrete (enumerated families incl. the real gemmx/alu/xdma "
+            "templates); at most 40 yields per path.",
+            "symbolic execution of the real Python + z3 unsat queries (LIA) per path", "3/C03"),
+    "C16": (OT,
+            "Same symbolic scheduler runs as C03: per yielded schedule z3 proves inner bounds <= template bounds under "
+            "the path condition; inner sub-matrices vs template by exact row-space equality (z3 over rationals); the "
+            "constraint predicates are executed with fully symbolic matrix entries and proved equal to declarative "
+            "definitions. TemplatePattern.matches (float SVD) is not encodable: run on enumerated concrete matrices "
+            "against the exact solver oracle.",
+            "element sizes concrete; matches() sub-clause is enumeration + solver oracle, not a for-all claim.",
+            "symbolic execution of the real Python + z3 unsat queries; exact LRA oracle for the SVD matcher", "3/C16"),
 }
 
 NOT_YET = "check not built yet (work in progress in this round); no claim is made"
